@@ -59,8 +59,17 @@ class tiebreak_set:
     locals = dict(tiebreak_scores=Dict(Real))
     trusted = ("assumed clause: with tiebreak 'first_place' the resolution is ordered by first-place votes (opaque fp_sorted; checked by bounded/C10)",)
 
+    def witnesses():
+        from votekit.ballot import Ballot
+        from votekit.pref_profile import PreferenceProfile
+        A, B, C = frozenset("A"), frozenset("B"), frozenset("C")
+        p = PreferenceProfile(ballots=(Ballot(ranking=(A, B, C), weight=Fraction(3)), Ballot(ranking=(B, A), weight=Fraction(3)), Ballot(ranking=(C,), weight=Fraction(3))),
+                              candidates=("A", "B", "C"))
+        return [dict(r_set=frozenset("ABC"), profile=None, tiebreak="random"), dict(r_set=frozenset("ABC"), profile=p, tiebreak="borda"),
+                dict(r_set=frozenset("BC"), profile=p, tiebreak="first_place")]
+
     def requires(r_set, profile, tiebreak):
-        return implies(tiebreak != "random" and profile is not None, r_set <= frozenset(profile.candidates))
+        return tiebreak == "random" or profile is None or r_set <= frozenset(profile.candidates)
 
     def raises_ValueError(r_set, profile, tiebreak):
         return tiebreak != "random" and (profile is None or (tiebreak != "first_place" and tiebreak != "borda"))
@@ -93,8 +102,8 @@ class elect_cands_from_set_ranking:
 
     def requires(ranking, m, profile, tiebreak):
         # a tally-based tiebreak needs the tallies of the tied candidates: they are candidates of the profile it is given
-        return implies(tiebreak is not None and tiebreak != "random" and profile is not None,
-                       union_upto(ranking, len(ranking)) <= frozenset(profile.candidates))
+        return (tiebreak is None or tiebreak == "random" or profile is None
+                or union_upto(ranking, len(ranking)) <= frozenset(profile.candidates))
 
     def hint_body_0(ranking, i):
         return union_member(ranking, len(ranking), i)
